@@ -38,6 +38,7 @@ const P_CAP1: usize = 1;
 const P_CAUGHT_UP_EXACTLY: usize = 2;
 const P_RC_MODE: usize = 3;
 const P_B_LEADS: usize = 4;
+const P_HUGE_CAP: usize = 5;
 
 struct Model {
     cap: u64,
@@ -120,6 +121,19 @@ fn gen_op(r: &mut Rng, m: &Model, st: &mut Sched, rc: bool) -> Option<Op> {
                 Op::k(if r.bool() { O_PULL_A } else { O_PULL_B })
             }
         }
+        // huge capacities: whole-buffer bursts so that the ring's write index wraps more than once
+        5 => {
+            let cap = m.cap as i64;
+            let l = st.leader;
+            if m.can_pull(l) && r.chance(1, 2) {
+                Op::kab(O_BURST, l as i64, r.range(cap / 3, cap))
+            } else {
+                if r.chance(1, 3) {
+                    st.leader = 1 - l;
+                }
+                Op::kab(O_BURST, (1 - l) as i64, lead.unsigned_abs().max(1) as i64 - if r.bool() { 0 } else { r.range(0, 3).min(lead.unsigned_abs() as i64 - 1).max(0) })
+            }
+        }
         _ => Op::k(if r.bool() { O_PULL_A } else { O_PULL_B }),
     };
     Some(op)
@@ -193,7 +207,7 @@ fn epoch<F: TagFrame, B: Branches<F>>(
                 let (branch, k) = match op.k {
                     O_PULL_A => (0u8, 1i64),
                     O_PULL_B => (1u8, 1i64),
-                    _ => ((op.a.clamp(0, 1)) as u8, op.b.clamp(1, 64)),
+                    _ => ((op.a.clamp(0, 1)) as u8, op.b.clamp(1, 300_000)),
                 };
                 if !m.can_pull(branch) {
                     // would exceed the capacity: outside the property's precondition
@@ -310,8 +324,8 @@ fn drive<F: TagFrame, D: SliceMut<Element = F>>(
     let end = src.cfg("src_len", -1, 300, |r| if r.chance(2, 3) { -1 } else { r.range(0, 300) });
     let end = if end < 0 { None } else { Some(end as u64) };
     let mut st = Sched {
-        policy: src.cfg("policy", 0, 4, |r| r.range(0, 4)),
-        steps: src.cfg("steps", 0, 4000, |r| if r.chance(1, 40) { r.range(800, 4000) } else { r.range(1, 200) }) as usize,
+        policy: src.cfg("policy", 0, 5, |r| if cap > 1000 { 5 } else { r.range(0, 4) }),
+        steps: src.cfg("steps", 0, 4000, |r| if cap > 1000 { r.range(4, 24) } else if r.chance(1, 40) { r.range(800, 4000) } else { r.range(1, 200) }) as usize,
         done: 0,
         allow_rc: src.cfg("allow_rc", 0, 1, |r| r.chance(1, 3) as i64) == 1,
         allow_resplit: src.cfg("allow_resplit", 0, 1, |r| r.chance(1, 2) as i64) == 1,
@@ -327,6 +341,9 @@ fn drive<F: TagFrame, D: SliceMut<Element = F>>(
     }
     if cap == 1 {
         obs.probe(P_CAP1);
+    }
+    if cap > 32_768 {
+        obs.probe(P_HUGE_CAP);
     }
     let mut fork = sig.fork(rb);
     let mut m = Model {
@@ -350,7 +367,9 @@ fn drive<F: TagFrame, D: SliceMut<Element = F>>(
 }
 
 fn with_storage<F: TagFrame>(src: &mut Source, obs: &mut Observer) -> Result<(), Violation> {
-    let cap = src.cfg("cap", 1, 130, |r| match r.below(20) {
+    let cap = src.cfg("cap", 1, 140_000, |r| match r.below(20) {
+        // very rarely a capacity beyond 2^16 (index arithmetic shortcuts tend to break there)
+        0 if r.chance(1, 300) => *r.pick(&[46_511i64, 65_535, 65_537, 72_000, 96_000, 100_000, 131_071]),
         0..=3 => 1,
         4..=7 => 2,
         8 => *r.pick(&[12i64, 15, 16, 17, 31, 32, 33, 64, 65, 100, 128]),
@@ -404,6 +423,7 @@ impl Scenario for ForkScenario {
             "laggard catches up exactly",
             "operation on Rc branches",
             "branch B leads",
+            "capacity above 2^15",
         ]
     }
     fn rule(&self) -> &'static str {
